@@ -419,7 +419,7 @@ def phase_life_traces(ctx, traces):
 def phase_fuzz(ctx):
     d = ctx.tmpdir("fz")
     n_py, n_rs = ctx.pick(6, 12), ctx.pick(1, 3)
-    per = ctx.pick(700, 6000)
+    per = ctx.pick(600, 6000)
     jobs = [{"task": "fuzz", "mode": "py", "shard": i, "count": per, "traces": os.path.join(d, f"py{i}.ndjson")} for i in range(n_py)]
     jobs += [{"task": "fuzz", "mode": "rs", "shard": 100 + i, "count": per, "traces": os.path.join(d, f"rs{i}.ndjson")} for i in range(n_rs)]
     results = spawn(ctx, jobs, "fuzz")
@@ -439,7 +439,7 @@ def phase_fuzz(ctx):
                 m = r["meta"].get(str(tid), {})
                 if v[2] == "illformed":
                     raise MachineryError(f"fuzz generator produced a case outside the canonical domain: {m}")
-                site = "crates/objects/src/lib.rs:sorted_tree_items" if job["mode"] == "rs" else f"dulwich/objects.py:{m.get('kind')}._serialize"
+                site = "dulwich/objects.py:Tree._serialize+crates/objects/src/lib.rs:sorted_tree_items" if job["mode"] == "rs" else f"dulwich/objects.py:{m.get('kind')}._serialize"
                 sig = f"{site}|bytes-differ-from-spec:{m.get('what')}|{m.get('kind')} seed={ctx.seed} shard={m.get('shard')} n={m.get('n')}"
                 ctx.violation(sig, f"TLC (ObjGrammarTrace): as_raw_string() of a random {m.get('kind')} ({m.get('what')}) differs from Ser(fields) at byte {v[3]}",
                               {"phase": "fuzz", "meta": m, "job": {k: job[k] for k in ("mode", "shard", "count")}})
@@ -783,7 +783,7 @@ def replay(ctx, path):
             print("REPRODUCED", json.dumps(x))
         return 1 if r["fail"] else 0
     if phase == "fuzz":
-        job = obj.get("job") or {"mode": f.get("mode", "py"), "shard": f.get("shard", 0), "count": ctx.pick(700, 6000)}
+        job = obj.get("job") or {"mode": f.get("mode", "py"), "shard": f.get("shard", 0), "count": ctx.pick(600, 6000)}
         d = ctx.tmpdir("fz")
         job = dict(job, task="fuzz", traces=os.path.join(d, "t.ndjson"))
         r = spawn(ctx, [job], "replay")[0]
